@@ -13,10 +13,106 @@ from .framework import Spec
 from .c11 import enc_ch, enc_md, ilist
 
 SCALE = 4
+INF = 10 ** 15          # a threshold of +-INF lattice units stands for +-np.inf on the implementation side
+INT_DTYPES = ['uint8', 'uint16', 'int16', 'int8', 'int32', 'int64']
+FLOAT_DTYPES = ['float32', 'float16']
 
 
 def crit(mode, row):
     return max(abs(v) for v in row) if mode == 'abs' else max(row) - min(row)
+
+
+class Enc:
+    """How the integer lattice of a case is laid into floating-point / integer sample values.
+
+    * default: v -> v/4 (exact);  integer dtypes: v -> v.
+    * 'ulp' (criterion 'absolute value'): an odd, strictly increasing map whose neighbouring lattice points are
+      NEIGHBOURING binary64 numbers (g(0) = 0, g(k) = the (k-1)-th float above a base such as 0.1), so a value just
+      below / equal to / just above the threshold differs from it by one unit in the last place;
+    * 'offset' (criterion 'amplitude'): v -> C + v * 2^-40 (exact in binary64, invisible in binary32): the
+      peak-to-peak amplitude is (max - min) * 2^-40 exactly.
+    The criterion on the encoded values is below the encoded threshold iff the lattice criterion is below the lattice
+    threshold (monotone maps), which is all the oracle uses."""
+
+    def __init__(self, c):
+        self.kind = c.get('enc')
+        self.dt = c.get('dtype')
+        self.int = bool(self.dt) and 'int' in self.dt
+        self.base = float(c.get('encbase', 0.1))
+        self.table = {}
+
+    def _ulp(self, k):
+        if k == 0:
+            return 0.0
+        x = self.base
+        for _ in range(abs(k) - 1):
+            x = float(np.nextafter(x, np.inf))
+        return x if k > 0 else -x
+
+    def value(self, v):
+        if self.kind == 'ulp':
+            x = self._ulp(v)
+        elif self.kind == 'offset':
+            x = self.base + v * 2.0 ** -40
+        elif self.int:
+            x = v
+        else:
+            x = v / SCALE
+        self.table[float(x)] = v
+        return x
+
+    def threshold(self, th):
+        if abs(th) >= INF:
+            return float('inf') if th > 0 else float('-inf')
+        if self.kind == 'ulp':
+            return self._ulp(th)
+        if self.kind == 'offset':
+            return th * 2.0 ** -40
+        return float(th) if self.int else th / SCALE
+
+    def array(self, vals, shape):
+        if self.kind:
+            return np.array([self.value(v) for v in vals], dtype=float).reshape(shape)
+        if self.int:
+            return np.array(vals, dtype=self.dt).reshape(shape)
+        return (np.array(vals, dtype=self.dt or float) / SCALE).reshape(shape)
+
+    def decode(self, x):
+        if self.kind:
+            return self.table.get(float(x), 'off-lattice:' + repr(float(x)))
+        return int(round(float(x) * (1 if self.int else SCALE)))
+
+
+def th_repr(thf, how):
+    """the same threshold value as another Python / NumPy type (only where the value is exactly representable)."""
+    if how == 'int' and np.isfinite(thf) and thf == int(thf):
+        return int(thf)
+    if how == 'np64':
+        return np.float64(thf)
+    if how == 'np32' and float(np.float32(thf)) == thf:
+        return np.float32(thf)
+    if how == 'npint' and np.isfinite(thf) and thf == int(thf):
+        return np.int64(int(thf))
+    if how == 'arr0d':
+        return np.array(thf)
+    return thf
+
+
+def relayout(data, how):
+    """the same values in another memory layout."""
+    if how == 'F':
+        return np.asfortranarray(data)
+    if how == 'strided':
+        big = np.zeros(data.shape[:-1] + (2 * data.shape[-1] + 1,), dtype=data.dtype)
+        big[..., 1::2] = data
+        return big[..., 1::2]
+    if how == 'rev':
+        return data[..., ::-1].copy()[..., ::-1]
+    if how == 'epochstride' and data.ndim == 3:
+        big = np.zeros((2 * data.shape[0] + 1,) + data.shape[1:], dtype=data.dtype)
+        big[1::2] = data
+        return big[1::2]
+    return data
 
 
 class C17(Spec):
@@ -27,13 +123,18 @@ class C17(Spec):
     TRUST = [
         'modelled, not verified: np.max/np.abs/np.ptp over the last axis (exact on the dyadic lattice used), '
         'boolean-mask indexing of the epoch axis (NumPy layer of PsiModel/PData.lean)',
-        'sample values and thresholds are integers/4 in the correspondence runs; the theorems are about an integer-valued criterion',
+        'sample values and thresholds are integers/4 in the correspondence runs (or a strictly increasing image of that '
+        'lattice: neighbouring binary64 numbers / 1 + k*2^-40); the theorems are about an integer-valued criterion',
     ]
-    ASSUMPTIONS = ['batches are 3-D (epoch, 1, time) with at least one sample per epoch; thresholds are finite numbers']
+    ASSUMPTIONS = ['batches are 3-D (epoch, 1, time) with at least one sample per epoch; thresholds are numbers or +-inf (no NaN)']
     RULE = ('one coroutine per case: criterion x constant/callable threshold x 1-4 batches, each plain or annotated, '
             '0-5 epochs of 1-4 samples on the lattice {0, ±1/4 … ±2, ±th, ±(th ± 1/4)}; refused shapes (2 channels, '
             '2-D, 1-D, 4-D plain) interleaved; quick additionally enumerates every single batch of <= 2 epochs x 2 samples over '
-            'a 7-point lattice around the threshold. Non-trivial = at least one epoch accepted and one rejected in the case, or a refusal.')
+            'a 7-point lattice around the threshold. Hardening: the same values as other dtypes / memory layouts / '
+            'neighbouring binary64 numbers, thresholds as int / NumPy scalars / 0-d arrays / ±inf, keyword call, no status '
+            'callback, annotated batches built by concat / slicing / defaults, the same array sent again, a second coroutine '
+            'fed the same arrays, the caller overwriting what it received, thousands of epochs / 2^16 samples / hundreds of sends. '
+            'Non-trivial = at least one epoch accepted and one rejected in the case, or a refusal.')
     exhaustive_note = {
         'quick': 'every batch of 1-2 epochs x 1-2 samples with values in {-th-1/4, -th, -th+1/4, 0, th-1/4, th, th+1/4}, both criteria, plain and annotated',
         'thorough': 'every batch of 1-3 epochs x 1-2 samples and of 1-2 epochs x 3 samples over the same 7-point lattice, both criteria, plain and annotated',
@@ -44,6 +145,8 @@ class C17(Spec):
         ne = rng.choice([0, 1, 1, 2, 3, 3, 4, 5])
         nt = rng.randint(1, 4)
         lattice = [-8, -4, -2, -1, 0, 1, 2, 4, 8, th, -th, th - 1, th + 1, -th + 1, -th - 1, th // 2]
+        if abs(th) >= INF:
+            lattice = [-8, -4, -2, -1, 0, 1, 2, 4, 8, 1000, -1000]
         shape = [ne, 1, nt]
         annot = rng.random() < 0.5 if annot is None else annot
         if bad == 'multi':
@@ -67,6 +170,12 @@ class C17(Spec):
         return b
 
     def cases(self, rng, tier):
+        for c in self.base_cases(rng, tier):
+            yield c
+        for c in self.hardening_cases(rng, tier):
+            yield c
+
+    def base_cases(self, rng, tier):
         import itertools
         quick = tier == 'quick'
         # exhaustive small batches around the threshold
@@ -83,77 +192,246 @@ class C17(Spec):
                         yield {'kind': 'exhaustive', 'mode': mode, 'callable': False, 'batches': [b]}
         n = 3000 if quick else 60000
         for _ in range(n):
-            mode = rng.choice(['abs', 'amp'])
-            call = rng.random() < 0.5
-            th0 = rng.choice([2, 4, 8, 3, 2, 4, 0, -2])         # incl. zero and negative thresholds
-            batches = []
-            for _b in range(rng.randint(1, 4)):
-                th = rng.choice([2, 4, 8, 3, 1, 0, -1]) if call else th0
-                bad = rng.choice(['multi', '2d', '1d', '4d']) if rng.random() < 0.08 else None
-                batches.append(self.mk_batch(rng, th, bad=bad))
-            c = {'kind': 'sequence', 'mode': mode, 'callable': call, 'batches': batches}
+            yield self.rand_sequence(rng)
+
+    def rand_sequence(self, rng, nmax=4, bad_p=0.08, old_dtypes=True):
+        mode = rng.choice(['abs', 'amp'])
+        call = rng.random() < 0.5
+        th0 = rng.choice([2, 4, 8, 3, 2, 4, 0, -2])         # incl. zero and negative thresholds
+        batches = []
+        for _b in range(rng.randint(1, nmax)):
+            th = rng.choice([2, 4, 8, 3, 1, 0, -1]) if call else th0
+            bad = rng.choice(['multi', '2d', '1d', '4d']) if rng.random() < bad_p else None
+            batches.append(self.mk_batch(rng, th, bad=bad))
+        c = {'kind': 'sequence', 'mode': mode, 'callable': call, 'batches': batches}
+        r = rng.random()
+        if old_dtypes and r < 0.25:
+            # acquisition hardware delivers integer counts: the same lattice values as unsigned / signed integers
+            # (unscaled; unsigned: |v| + 1, so that every epoch's minimum is non-zero) or as float32
+            self.set_dtype(c, rng.choice(['uint8', 'uint16', 'int16', 'float32']))
+        return c
+
+    @staticmethod
+    def set_dtype(c, dt):
+        c['dtype'] = dt
+        if dt.startswith('uint'):
+            for b in c['batches']:
+                if 'vals' in b:
+                    b['vals'] = [abs(v) + 1 for v in b['vals']]
+
+    # ---- hardening (harness/HARDENING.md) ---------------------------------
+    def hardening_cases(self, rng, tier):
+        quick = tier == 'quick'
+        n = 2500 if quick else 50000
+        for _ in range(n):
+            c = self.rand_sequence(rng, old_dtypes=False)
+            c['kind'] = 'hardened'
+            bs = c['batches']
+            # item 4: an infinite threshold (accept all / reject all)
+            if rng.random() < 0.1:
+                t = rng.choice([INF, -INF])
+                for b in bs:
+                    if not c['callable'] or rng.random() < 0.5:
+                        b['th'] = t
+            # item 1: representation of the sample values
             r = rng.random()
-            if r < 0.25:
-                # acquisition hardware delivers integer counts: the same lattice values as unsigned / signed integers
-                # (unscaled; unsigned: |v| + 1, so that every epoch's minimum is non-zero) or as float32
-                c['dtype'] = rng.choice(['uint8', 'uint16', 'int16', 'float32'])
-                if c['dtype'].startswith('uint'):
-                    for b in batches:
-                        b['vals'] = [abs(v) + 1 for v in b['vals']]
+            if r < 0.3:
+                self.set_dtype(c, rng.choice(INT_DTYPES + FLOAT_DTYPES))
+            elif r < 0.55:
+                # neighbouring binary64 numbers around the threshold / an offset invisible in binary32
+                c['enc'] = 'ulp' if c['mode'] == 'abs' else 'offset'
+                c['encbase'] = rng.choice([0.1, 1e-7, 123456.7, 1 / 3]) if c['enc'] == 'ulp' else rng.choice([1.0, 3.0, -5.0])
+            for b in bs:
+                if rng.random() < 0.3:
+                    b['layout'] = rng.choice(['F', 'strided', 'rev', 'epochstride'])
+                # item 1: representation of the threshold (per call for a callable threshold)
+                if rng.random() < 0.5:
+                    b['threp'] = rng.choice(['int', 'np64', 'np32', 'npint', 'arr0d'])
+                # item 2: construction route of an annotated batch
+                if b['annot'] and len(b['shape']) == 3 and b['shape'][1] == 1 and rng.random() < 0.5:
+                    b['route'] = rng.choice(['concat', 'slice', 'tslice', 'pos', 'defaults'] if b['shape'][0] else ['slice', 'tslice', 'pos', 'defaults'])
+                    if b['route'] == 'defaults':
+                        b['ch'] = [None]
+            # item 2: keyword call, no status callback
+            if rng.random() < 0.3:
+                c['kw'] = True
+            if rng.random() < 0.15:
+                c['nocb'] = True
+            # item 5: the same array sent again (later, possibly with another threshold in force)
+            if rng.random() < 0.4:
+                seq = list(bs)
+                for _k in range(rng.randint(1, 3)):
+                    i = rng.randrange(len(seq))
+                    target = seq[i].get('refobj', seq[i])
+                    seq.insert(rng.randint(i + 1, len(seq)), {'refobj': target, 'th': rng.choice([2, 4, 8, 3, 1, 0, -1])})
+                pos = {id(b): k for k, b in enumerate(seq) if 'refobj' not in b}
+                bs = c['batches'] = [{'ref': pos[id(b['refobj'])], 'th': b['th']} if 'refobj' in b else b for b in seq]
+            if not c['callable']:
+                for b in bs:
+                    b['th'] = bs[0]['th']            # a constant threshold (with the representation of the first batch)
+            # item 6: the caller overwrites what it received (forwarded array, mask) after every send
+            if rng.random() < 0.4:
+                c['clobber'] = True
+            # item 5/7: a second coroutine with another criterion / threshold, created afterwards, fed the same arrays
+            if rng.random() < 0.35:
+                c['twin'] = {'mode': rng.choice(['abs', 'amp']), 'callable': rng.random() < 0.5,
+                             'ths': [rng.choice([2, 4, 8, 3, 1, 0, -1]) for _ in bs]}
+                if c.get('enc') and c['twin']['mode'] != c['mode']:
+                    c['twin']['mode'] = c['mode']          # the encodings are monotone for one criterion only
+                if not c['twin']['callable']:
+                    c['twin']['ths'] = [c['twin']['ths'][0]] * len(bs)
             yield c
+
+        # item 3: scale — thousands of epochs, 2^16 (+1) samples per epoch, hundreds of sends, s0 beyond 2^31
+        for mode in ('abs', 'amp'):
+            ne = 3000
+            vals = [rng.choice([-5, -4, -3, 0, 3, 4, 5]) for _ in range(ne * 2)]
+            b = {'th': 4, 'annot': True, 'shape': [ne, 1, 2], 'vals': vals, 's0': 2 ** 40 + 3, 'fs': [1000, 1], 'ch': ['c0'],
+                 'md': list(range(ne))}
+            yield {'kind': 'scale', 'mode': mode, 'callable': False, 'batches': [b, {'ref': 0, 'th': 4}]}
+            nt = 2 ** 16 + 1
+            rows = []
+            for e in range(4):
+                row = [rng.choice([-3, -2, 0, 1, 2, 3]) for _ in range(nt)]
+                if e in (1, 3):
+                    # ONE sample puts the epoch on the threshold: the very last one (index 2^16) / the first one
+                    row = [max(v, 0) for v in row] if mode == 'amp' else row
+                    row[nt - 1 if e == 1 else 0] = rng.choice([4, -4]) if mode == 'abs' else 4
+                    row[5] = 0
+                elif mode == 'amp':
+                    row = [max(min(v, 1), -1) for v in row]
+                rows += row
+            b = {'th': 4, 'annot': False, 'shape': [4, 1, nt], 'vals': rows}
+            tiny = {'th': 4, 'annot': False, 'shape': [1, 1, 1], 'vals': [3]}
+            yield {'kind': 'scale', 'mode': mode, 'callable': False, 'batches': [tiny, b, dict(tiny, vals=[4])]}
+            c = self.rand_sequence(rng, nmax=1, bad_p=0, old_dtypes=False)
+            c['mode'], c['kind'] = mode, 'scale'
+            first = c['batches'][0]
+            if not c['callable']:
+                first['th'] = 4
+            for i in range(300):
+                nb = self.mk_batch(rng, rng.choice([2, 4, 8, 3, 1, 0, -1]) if c['callable'] else first['th'])
+                c['batches'].append(nb if rng.random() < 0.8 else {'ref': 0, 'th': nb['th']})
+            yield c
+
+    # ---- case structure ------------------------------------------------------
+    @staticmethod
+    def resolve(c):
+        """[(batch description incl. the threshold in force, index of the array object it uses)]"""
+        out = []
+        for i, b in enumerate(c['batches']):
+            if 'ref' in b:
+                src = c['batches'][b['ref']]
+                out.append((dict(src, th=b['th']), b['ref']))
+            else:
+                out.append((b, i))
+        return out
+
+    @staticmethod
+    def send_line(b, th):
+        l = f"send {th} {'pd' if b['annot'] else 'plain'} {ilist(b['shape'])} {ilist(b['vals'])}"
+        if b['annot']:
+            l += f" {b['s0']} {b['fs'][0]}/{b['fs'][1]} {enc_ch(b['ch'])} {enc_md(b['md'])}"
+        return l
 
     def model_lines(self, c):
         lines = [f"mode {c['mode']}"]
-        for b in c['batches']:
-            l = f"send {b['th']} {'pd' if b['annot'] else 'plain'} {ilist(b['shape'])} {ilist(b['vals'])}"
-            if b['annot']:
-                l += f" {b['s0']} {b['fs'][0]}/{b['fs'][1]} {enc_ch(b['ch'])} {enc_md(b['md'])}"
-            lines.append(l)
+        res = self.resolve(c)
+        for b, _ in res:
+            lines.append(self.send_line(b, b['th']))
+        if c.get('twin'):
+            lines.append(f"mode {c['twin']['mode']}")
+            for (b, _), th in zip(res, c['twin']['ths']):
+                lines.append(self.send_line(b, th))
         return lines
+
+    # ---- implementation side ---------------------------------------------------
+    @staticmethod
+    def build(P, b, enc):
+        data = relayout(enc.array(b['vals'], b['shape']), b.get('layout'))
+        if not b['annot']:
+            return data
+        md = [{'i': v} for v in b['md']] if isinstance(b['md'], list) else {'i': b['md']}
+        ch = list(b['ch']) if isinstance(b['ch'], list) else b['ch']
+        fs = b['fs'][0] / b['fs'][1]
+        route = b.get('route')
+        if route == 'concat':
+            # one array per epoch, stacked along the epoch axis
+            pieces = [P.PipelineData(data[i:i + 1], fs=fs, s0=b['s0'], channel=list(ch), metadata=[md[i]]) for i in range(b['shape'][0])]
+            return P.concat(pieces, axis='epoch')
+        if route == 'slice':
+            # the batch is a slice (epoch axis) of a longer annotated array
+            big = np.concatenate([data[:1] * 0 + 99, data, data[:1] * 0 + 99]) if b['shape'][0] else np.zeros([2] + b['shape'][1:], dtype=data.dtype)
+            x = P.PipelineData(big, fs=fs, s0=b['s0'], channel=ch, metadata=[{'i': 'x'}] + md + [{'i': 'y'}])
+            return x[1:1 + b['shape'][0]]
+        if route == 'tslice':
+            # the batch is a time slice of a longer annotated array (first-sample index shifted by the slice)
+            pad = np.zeros(tuple(b['shape'][:-1]) + (2,), dtype=data.dtype)
+            x = P.PipelineData(np.concatenate([pad + 99, data, pad - 99], axis=-1), fs=fs, s0=b['s0'] - 2, channel=ch, metadata=md)
+            return x[..., 2:2 + b['shape'][-1]]
+        if route == 'pos':
+            return P.PipelineData(data, fs, b['s0'], ch, md)
+        if route == 'defaults':
+            kw = {} if b['s0'] == 0 else {'s0': b['s0']}
+            return P.PipelineData(data, fs, metadata=md, **kw)
+        return P.PipelineData(data, fs=fs, s0=b['s0'], channel=ch, metadata=md)
 
     def impl_lines(self, c):
         from psiaudio import pipeline as P
-        cur = [None]
-        got, status = [], []
-        mode = {'abs': 'absolute value', 'amp': 'amplitude'}[c['mode']]
-        dt = c.get('dtype')
-        scale = 1 if dt and 'int' in dt else SCALE      # integer dtypes carry the lattice values themselves
-        th = (lambda: cur[0]) if c['callable'] else c['batches'][0]['th'] / scale
-        co = P.reject_epochs(th, mode, status.append, got.append)
-        out = ['ok']
-        for b in c['batches']:
-            cur[0] = b['th'] / scale
-            if dt and 'int' in dt:
-                data = np.array(b['vals'], dtype=dt).reshape(b['shape'])
-            else:
-                data = (np.array(b['vals'], dtype=dt or float) / SCALE).reshape(b['shape'])
-            if b['annot']:
-                md = [{'i': v} for v in b['md']] if isinstance(b['md'], list) else {'i': b['md']}
-                data = P.PipelineData(data, fs=b['fs'][0] / b['fs'][1], s0=b['s0'],
-                                      channel=list(b['ch']) if isinstance(b['ch'], list) else b['ch'], metadata=md)
-            del got[:], status[:]
-            try:
-                co.send(data)
-            except (ValueError, StopIteration, IndexError, TypeError, KeyError) as e:
-                out.append(f'err {type(e).__name__}')
-                continue
-            if len(status) != 1:
-                out.append(f'status-callback-called-{len(status)}-times')
-                continue
-            mask = ''.join('1' if v else '0' for v in np.asarray(status[0]).tolist()) or '-'
+        enc = Enc(c)
+        res = self.resolve(c)
+        modes = {'abs': 'absolute value', 'amp': 'amplitude'}
+        objs = {}
+
+        def obj(b, i):
+            if i not in objs:
+                objs[i] = self.build(P, b, enc)
+            return objs[i]
+
+        class Co:
+            """one reject_epochs coroutine with its recording target / callback."""
+            def __init__(co, mode, call, ths, kw=False, nocb=False):
+                co.cur = [None]
+                co.got, co.status = [], []
+                first = th_repr(enc.threshold(ths[0]), res[0][0].get('threp'))
+                th = (lambda: co.cur[0]) if call else first
+                cb = None if nocb else co.status.append
+                if kw:
+                    co.co = P.reject_epochs(valid_target=co.got.append, status_cb=cb, mode=modes[mode], reject_threshold=th)
+                else:
+                    co.co = P.reject_epochs(th, modes[mode], cb, co.got.append)
+                co.call, co.first, co.nocb = call, first, nocb
+
+            def send(co, b, data, th):
+                """-> (error class | None, mask | None, forwarded | None)"""
+                co.cur[0] = th_repr(enc.threshold(th), b.get('threp')) if co.call else co.first
+                del co.got[:], co.status[:]
+                try:
+                    co.co.send(data)
+                except (ValueError, StopIteration, IndexError, TypeError, KeyError) as e:
+                    return type(e).__name__, None, None
+                return None, list(co.status), list(co.got)
+
+        def line_of(co, b, err, status, got, want_status=True):
+            if err:
+                return f'err {err}'
+            if want_status and len(status) != 1:
+                return f'status-callback-called-{len(status)}-times'
+            mask = None
+            if status:
+                m = np.asarray(status[0])
+                mask = ''.join('1' if v else '0' for v in m.tolist()) or '-'
             if not got:
-                out.append(f'ok mask={mask} fwd=none')
-                continue
+                return f'ok mask={mask} fwd=none'
             if len(got) != 1:
-                out.append(f'target-called-{len(got)}-times')
-                continue
+                return f'target-called-{len(got)}-times'
             v = got[0]
             arr = np.asarray(v)
             if arr.size == 0:
                 fwd = 'empty'
             else:
                 rows = arr.reshape(arr.shape[0], -1) if arr.ndim >= 1 else arr.reshape(1, -1)
-                fwd = ';'.join(ilist([int(round(x * scale)) for x in r]) for r in rows.tolist())
+                fwd = ';'.join(','.join(str(enc.decode(x)) for x in r) for r in rows.tolist())
             line = f'ok mask={mask} fwd={fwd} shape={ilist(arr.shape)}'
             if b['annot']:
                 if not isinstance(v, P.PipelineData):
@@ -162,24 +440,75 @@ class C17(Spec):
                     md = v.metadata
                     ids = []
                     for m in (md if isinstance(md, list) else [md]):
-                        ok = isinstance(m, dict) and m.get('reject_threshold') == cur[0] and set(m) == {'i', 'reject_threshold'}
+                        ok = isinstance(m, dict) and set(m) == {'i', 'reject_threshold'} and bool(m['reject_threshold'] == co.cur[0])
                         ids.append(str(m['i']) if ok else 'bad:' + repr(m).replace(' ', ''))
                     mds = ('l:' + (','.join(ids) if ids else '-')) if isinstance(md, list) else 's:' + ids[0]
                     from fractions import Fraction
                     fr = Fraction(float(v.fs))
-                    ch = v.channel
-                    line += f' md={mds} s0={int(v.s0)} fs={fr.numerator}/{fr.denominator} ch={enc_ch(ch)}'
-            out.append(line)
-        return out
+                    line += f' md={mds} s0={int(v.s0)} fs={fr.numerator}/{fr.denominator} ch={enc_ch(v.channel)}'
+            return line
 
+        def clobber(status, got):
+            # the caller overwrites, in place, everything it was handed
+            for m in status or []:
+                try:
+                    m[...] = ~np.asarray(m)
+                except Exception:
+                    pass
+            for v in got or []:
+                try:
+                    v[...] = 77
+                except Exception:
+                    pass
+
+        tw = c.get('twin')
+        main = Co(c['mode'], c['callable'], [b['th'] for b, _ in res], kw=c.get('kw'), nocb=c.get('nocb'))
+        shadow = Co(c['mode'], c['callable'], [b['th'] for b, _ in res]) if c.get('nocb') else None
+        twin = Co(tw['mode'], tw['callable'], tw['ths']) if tw else None
+        out, tout = ['ok'], ['ok']
+        for n, (b, i) in enumerate(res):
+            data = obj(b, i)
+            err, status, got = main.send(b, data, b['th'])
+            if shadow is not None:
+                # without a status callback the mask is not observable: a coroutine WITH a callback, fed the same
+                # arrays, supplies the mask; the forwarded epochs are those of the coroutine without callback
+                serr, sstatus, sgot = shadow.send(b, data, b['th'])
+                l1 = line_of(main, b, err, sstatus if not err else None, got, want_status=False)
+                l2 = line_of(shadow, b, serr, sstatus, sgot)
+                if err is None and status:
+                    l1 += ' status-callback-called-although-None'
+                out.append(l1 if l1 == l2 else f'{l1} BUT-with-a-status-callback: {l2}')
+                if c.get('clobber'):
+                    clobber(sstatus, sgot)
+            else:
+                out.append(line_of(main, b, err, status, got))
+            if c.get('clobber'):
+                clobber(status, got)
+            if twin is not None:
+                err, status, got = twin.send(b, data, tw['ths'][n])
+                tout.append(line_of(twin, b, err, status, got))
+                if c.get('clobber'):
+                    clobber(status, got)
+        return out + (tout if tw else [])
+
+    # ---- the property, on the implementation's outputs ---------------------------
     def oracle(self, c, out):
         if out and out[0].startswith('HARNESS-EXC'):
             return out[0]
-        if len(out) != 1 + len(c['batches']):
+        res = self.resolve(c)
+        nb = len(res)
+        tw = c.get('twin')
+        if len(out) != (1 + nb) * (2 if tw else 1):
             return f'adapter produced {len(out)} lines'
+        f = self._oracle_part(c['mode'], [(b, b['th']) for b, _ in res], out[1:1 + nb], '')
+        if f is None and tw:
+            f = self._oracle_part(tw['mode'], [(b, th) for (b, _), th in zip(res, tw['ths'])], out[2 + nb:], 'second coroutine, ')
+        return f
+
+    def _oracle_part(self, mode, sends, lines, who):
         alive = True
-        for n, b in enumerate(c['batches']):
-            line = out[n + 1]
+        for n, (b, th) in enumerate(sends):
+            line = lines[n]
             if line.startswith('HARNESS-EXC'):
                 return line
             if not alive:
@@ -188,7 +517,7 @@ class C17(Spec):
             refused = len(sh) != 3 or sh[1] != 1
             if refused:
                 if not line.startswith('err '):
-                    return f"batch {n}: input of shape {sh} ({'annotated' if b['annot'] else 'plain'}) was not refused: {line[:80]}"
+                    return f"{who}batch {n}: input of shape {sh} ({'annotated' if b['annot'] else 'plain'}) was not refused: {line[:80]}"
                 alive = False
                 continue
             ne, _, nt = sh
@@ -196,30 +525,37 @@ class C17(Spec):
                 alive = not line.startswith('err ')
                 continue
             rows = [b['vals'][i * nt:(i + 1) * nt] for i in range(ne)]
-            want = [crit(c['mode'], r) < b['th'] for r in rows]
+            want = [crit(mode, r) < th for r in rows]
             if line.startswith('err '):
-                return f'batch {n}: a valid batch of shape {sh} raised {line[4:]}'
+                return f'{who}batch {n}: a valid batch of shape {sh} raised {line[4:]}'
+            if not line.startswith('ok '):
+                return f'{who}batch {n}: {line[:200]}'
+            if ' BUT-with-a-status-callback: ' in line or 'status-callback-called-although-None' in line:
+                return f'{who}batch {n}: {line[:300]}'
             f = dict(p.split('=', 1) for p in line[3:].split(' ') if '=' in p)
             mask = [] if f.get('mask') == '-' else [ch == '1' for ch in f.get('mask', '')]
             if mask != want:
-                return (f"batch {n}: status callback got mask {f.get('mask')} but the criteria {[crit(c['mode'], r) for r in rows]} "
-                        f"against threshold {b['th']} (units of 1/4, strict) give {''.join('1' if w else '0' for w in want)}")
+                return (f"{who}batch {n}: status callback got mask {f.get('mask')} but the criteria {[crit(mode, r) for r in rows][:20]} "
+                        f"against threshold {th} (lattice units, strict) give {''.join('1' if w else '0' for w in want)[:60]}")
             keep = [r for r, w in zip(rows, want) if w]
             if not keep:
                 if f.get('fwd') != 'none':
-                    return f'batch {n}: nothing accepted but the target was called with {f.get("fwd")}'
+                    return f'{who}batch {n}: nothing accepted but the target was called with {f.get("fwd")[:80]}'
                 continue
             if f.get('fwd') == 'none':
-                return f'batch {n}: {len(keep)} epochs accepted but nothing was forwarded'
+                return f'{who}batch {n}: {len(keep)} epochs accepted but nothing was forwarded'
             if f['fwd'] == 'empty':
-                return f'batch {n}: an empty array was forwarded'
-            got = [[int(v) for v in r.split(',')] for r in f['fwd'].split(';')]
+                return f'{who}batch {n}: an empty array was forwarded'
+            try:
+                got = [[int(v) for v in r.split(',')] for r in f['fwd'].split(';')]
+            except ValueError:
+                return f"{who}batch {n}: forwarded values that are not samples of the batch: {f['fwd'][:120]}"
             if got != keep:
-                return f'batch {n}: forwarded {got}, accepted epochs in order are {keep}'
+                return f'{who}batch {n}: forwarded {str(got)[:200]}, accepted epochs in order are {str(keep)[:200]}'
             if b['annot']:
                 ids = [str(i) for i, w in zip(b['md'], want) if w]
                 if f.get('md') != 'l:' + ','.join(ids):
-                    return f"batch {n}: forwarded metadata {f.get('md')} but the accepted epochs carry {ids}"
+                    return f"{who}batch {n}: forwarded metadata {str(f.get('md'))[:120]} but the accepted epochs carry {ids[:30]}"
         return None
 
     def nontrivial(self, c, out):
@@ -231,19 +567,39 @@ class C17(Spec):
 
     def neighbours(self, c, rng):
         for n, b in enumerate(c['batches']):
-            for i in range(len(b['vals'])):
+            for i in range(len(b.get('vals', []))):
                 for d in (-1, 1):
                     cc = copy.deepcopy(c)
                     cc['batches'][n]['vals'][i] += d
                     yield cc
 
+    def materialize(self, c):
+        """the same sends with every repeated array replaced by an equal, separate one."""
+        cc = copy.deepcopy(c)
+        cc['batches'] = [copy.deepcopy(b) for b, _ in self.resolve(c)]
+        return cc
+
     def shrink_candidates(self, c):
+        for key in ('twin', 'clobber', 'kw', 'nocb'):
+            if c.get(key):
+                cc = copy.deepcopy(c)
+                del cc[key]
+                yield cc
+        if any('ref' in b for b in c['batches']):
+            yield self.materialize(c)
+            return
+        for n, b in enumerate(c['batches']):
+            for key in ('layout', 'threp', 'route'):
+                if key in b:
+                    cc = copy.deepcopy(c)
+                    del cc['batches'][n][key]
+                    yield cc
         if len(c['batches']) > 1:
             for i in range(len(c['batches'])):
                 cc = copy.deepcopy(c)
                 del cc['batches'][i]
-                if not cc['callable']:
-                    pass
+                if cc.get('twin'):
+                    del cc['twin']['ths'][i]
                 yield cc
         for n, b in enumerate(c['batches']):
             if len(b['shape']) == 3 and b['shape'][0] > 1:
@@ -258,8 +614,18 @@ class C17(Spec):
                     yield cc
 
     def describe(self, c):
-        bs = '; '.join(f"send({'PipelineData' if b['annot'] else 'ndarray'} shape {b['shape']} values/4 {b['vals']}, th={b['th']}/4)" for b in c['batches'])
-        return f"reject_epochs(mode={c['mode']}, threshold {'callable' if c['callable'] else 'constant'}): {bs}"
+        sth = lambda t: ('inf' if t > 0 else '-inf') if abs(t) >= INF else str(t)
+
+        def one(b):
+            if 'ref' in b:
+                return f"send(the array of send {b['ref']} again, th={sth(b['th'])})"
+            extra = ''.join(f', {k}={b[k]}' for k in ('layout', 'threp', 'route') if k in b)
+            return (f"send({'PipelineData' if b['annot'] else 'ndarray'} shape {b['shape']} values {str(b['vals'])[:200]}, "
+                    f"th={sth(b['th'])}{extra})")
+        opts = {k: c[k] for k in ('dtype', 'enc', 'encbase', 'kw', 'nocb', 'clobber', 'twin') if c.get(k)}
+        unit = 'lattice units' if c.get('enc') or (c.get('dtype') and 'int' in c['dtype']) else 'units of 1/4'
+        return (f"reject_epochs(mode={c['mode']}, threshold {'callable' if c['callable'] else 'constant'}) [{unit}"
+                f"{', ' + str(opts) if opts else ''}]: " + '; '.join(one(b) for b in c['batches']))
 
 
 SPEC = C17()
